@@ -18,6 +18,7 @@ structure St where
   a : Option Pipe := none
   b : Option Pipe := none
   n : Option Nat := none                          -- no-alloc logger: its level
+  slots : Slots := fun _ => none                  -- registered log-subject lists (names per package slot)
   wfail : List Nat := []                          -- ordinals (since case start) of recording-writer calls that fail
   wcalls : Nat := 0                               -- recording-writer calls so far
 
@@ -77,12 +78,19 @@ def step (s : St) (t : List String) : St × List String :=
       else if w == "b" then (match s.b with | some p => ({ s with b := some (setLevel p level) }, ["P setlevel OK"]) | none => (s, ["bad-op"]))
       else if w == "n" then (match s.n with | some _ => ({ s with n := some level }, ["P setlevel OK"]) | none => (s, ["bad-op"]))
       else (s, ["bad-op"])
+  | "subjects" :: slot :: names =>
+    match slot.toNat?, names.mapM parseHex? with
+    | some slot, some names =>
+      if names.isEmpty ∨ slot ≥ AWS_PACKAGE_SLOTS then (s, ["bad-op"]) else
+      ({ s with slots := registerSubjects s.slots (slot * 2 ^ AWS_LOG_SUBJECT_STRIDE_BITS) names },
+       [s!"W subjects slot={slot} count={names.length}"])
+    | _, _ => (s, ["bad-op"])
   | "wfail" :: ks =>
     match ks.mapM (fun k => if k == "-" then some none else k.toNat?.map some) with
     | some l => ({ s with wfail := l.filterMap id }, [])
     | none => (s, ["bad-op"])
-  | ["pipe", w, level, _sid, subject, msgLen, shape, how] =>
-    match level.toNat?, parseHex? subject, parseSize? msgLen, shape.toNat? with
+  | ["pipe", w, level, sid, _expected, msgLen, shape, how] =>
+    match level.toNat?, (parseSize? sid).bind (subjectName s.slots), parseSize? msgLen, shape.toNat? with
     | some level, some subject, some msgLen, some shape =>
       if how != "macro" && how != "cond" then (s, ["bad-op"]) else
       let c : Call := { level := level, subject := subject, msg := msgOf msgLen shape, ts := tsOf tss 1, tid := tid,
@@ -100,8 +108,8 @@ def step (s : St) (t : List String) : St × List String :=
       else if w == "b" then (match s.b with | some p => let (p', o) := go p; ({ s with b := some p' }, o) | none => (s, ["bad-op"]))
       else (s, ["bad-op"])
     | _, _, _, _ => (s, ["bad-op"])
-  | ["noalloc", level, _sid, subject, msgLen, shape, how] =>
-    match level.toNat?, parseHex? subject, parseSize? msgLen, shape.toNat?, s.n with
+  | ["noalloc", level, sid, _expected, msgLen, shape, how] =>
+    match level.toNat?, (parseSize? sid).bind (subjectName s.slots), parseSize? msgLen, shape.toNat?, s.n with
     | some level, some subject, some msgLen, some shape, some cur =>
       if how != "macro" && how != "cond" then (s, ["bad-op"]) else
       if gate cur level then
